@@ -579,6 +579,46 @@ func runC01(c *core.Ctx) {
 		c.Floor("D2 obligations", n, 30)
 	})
 
+	c.Clause("D7", func() {
+		// A write is acknowledged only when the field set that makes its fields readable after a restart is on disk.
+		// With a TSI index a restart trusts a non-empty fields.idx (Engine.LoadMetadataIndex returns early), so a field
+		// that is only in memory is unknown afterwards and its points are not returned. Shard.createFieldsAndMeasurements
+		// therefore must either persist a new field before it publishes it to other writers (Save before
+		// CreateFieldIfNotExists), or make a writer that finds nothing to create wait for the pending save of the
+		// fields it relies on (some query of the field set's persistence state on that path).
+		f := c.Fn("tsdb.(*Shard).createFieldsAndMeasurements")
+		publish := evCall(calleeIn(f, "tsdb.(*MeasurementFields).CreateFieldIfNotExists"))
+		save := evCall(calleeIn(f, "tsdb.(*MeasurementFieldSet).Save"))
+		pubs := findOrAbort(c, f, "CreateFieldIfNotExists", publish, 1)
+		findOrAbort(c, f, "MeasurementFieldSet.Save", save, 1)
+		persistFirst := true
+		for _, p := range pubs {
+			target := p
+			if len(f.MustPrecede(save, func(x *core.Event) bool { return x == target })) > 0 {
+				persistFirst = false
+			}
+		}
+		// does a path that saves nothing consult the field set at all?
+		consults := false
+		for _, e := range f.Graph().Events {
+			if e.Kind != core.EvCall || e.Call == nil {
+				continue
+			}
+			fn, ok := e.Callee.(*types.Func)
+			if !ok || fn.Name() == "Save" {
+				continue
+			}
+			if sig, ok := fn.Type().(*types.Signature); ok && sig.Recv() != nil && strings.HasSuffix(sig.Recv().Type().String(), "tsdb.MeasurementFieldSet") {
+				consults = true
+			}
+		}
+		// LoadMetadataIndex: the shortcut that makes fields.idx authoritative
+		lm := c.Fn(tsm1 + ".(*Engine).LoadMetadataIndex")
+		shortcut := len(lm.Graph().Find(evCall(calleeIn(lm, "tsdb.(*MeasurementFieldSet).IsEmpty")))) > 0
+		c.Check("field-persisted-before-relied-on", f.Name+"/publish-before-persist", f.PosStr(), persistFirst || consults || !shortcut,
+			"a new field is published in memory (CreateFieldIfNotExists) before fields.idx is saved, and a writer that finds nothing left to create returns without waiting for that save: its write is acknowledged while the field is in no fields.idx; if the save fails or the process dies while it is in flight, a restart with a TSI index trusts the non-empty fields.idx (LoadMetadataIndex returns early), the field is unknown and the acknowledged points are not returned")
+	})
+
 	c.Clause("D3", func() {
 		f := c.Fn(tsm1 + ".(*Engine).Open")
 		cleanup := calleeIn(f, tsm1+".(*Engine).cleanup")
